@@ -283,6 +283,29 @@ pub fn run(ctx: &Ctx) -> i32 {
     let total = small.len() as u64 * extra.len() as u64;
     let a = run_indexed(&p, total, |i| Some(Case { val: small[(i / extra.len() as u64) as usize].clone(), opts: extra[(i % extra.len() as u64) as usize] }));
     acc = acc.merge(a);
+    // sibling pass: layout state must not leak from one child into the next. Every two-child parent shape x every
+    // first child of up to 3 nodes x every second child of up to 2 (thorough 3) nodes, under a few option vectors
+    {
+        let firsts: Vec<&Dyn> = by.iter().take(4).flatten().collect();
+        let seconds: Vec<&Dyn> = by.iter().take(ctx.tier.pick(3, 4)).flatten().collect();
+        let sopts = [SerOpts::default(), SerOpts { compact: true, ..SerOpts::default() }, SerOpts { indent: 3, ..SerOpts::default() }, SerOpts { no_empty_braces: true, ..SerOpts::default() }];
+        let (nf, ns, no) = (firsts.len() as u64, seconds.len() as u64, sopts.len() as u64);
+        let total = ARITY2.len() as u64 * nf * ns * no;
+        let a = run_indexed(&p, total, |i| {
+            let o = sopts[(i % no) as usize];
+            let r = i / no;
+            let y = seconds[(r % ns) as usize];
+            let r = r / ns;
+            let x = firsts[(r % nf) as usize];
+            let shape = (r / nf) as usize;
+            if x.count() + y.count() + 1 <= max {
+                return None; // already covered by the exhaustive part
+            }
+            Some(Case { val: build2(shape, x.clone(), y.clone()), opts: o })
+        });
+        acc.notes.insert("sibling_pass".into(), json!({"first_child_max_nodes": 3, "second_child_max_nodes": ctx.tier.pick(2, 3), "parents": ARITY2, "option_vectors": sopts.len(), "cases": a.evaluations}));
+        acc = acc.merge(a);
+    }
     acc.samples.truncate(0);
     for v in by[max.min(4)].iter().step_by(by[max.min(4)].len() / 3 + 1) {
         acc.samples.push(json!({"value": format!("{:?}", v), "text": serde_saphyr::to_string(v).unwrap_or_default()}));
